@@ -28,7 +28,7 @@ func registerC08() {
 			"Header.MarshalJSON, Encode of API-built Files, Encode of decoded Files (both byte orders), Encode into a writer that fails part-way and Encode of a File with an un-encodable string over a pool of device files, model streams (incl. every accumulated " +
 			"component source) and API-built Files; each history runs in its own process; after every call a digest of the result (canonical content / bytes written / error text) " +
 			"is compared with (a) an immediate repetition of the call and (b) the digest of the same call made FIRST in a fresh process (one process per distinct call); some Decode calls overwrite every number and slice element of the File they got back before the next call is made; every successful Encode of an API-built File is repeated on the same File value (same bytes), then on the same File value after its messages were edited in place (bytes of a never-encoded identical File), and followed by an Encode of an identical File into a buffer that already holds the first output, which must append the same bytes and leave the earlier ones alone. " +
-			"Non-trivial: a call preceded by at least one other call whose digest was compared with its fresh-process baseline; distinct by (history, position)",
+			"Every history also encodes one whole length group: three Files of one shape whose strings and arrays differ in length (also string fields the profile gives no size). Non-trivial: a call preceded by at least one other call whose digest was compared with its fresh-process baseline; distinct by (history, position)",
 		Assume: []string{
 			"record.distance of records whose compressed_speed_distance expands is canonicalised through the defect predictor: a value equal to the prediction of known findings F5/F6 is replaced by the reference value and counted as KNOWN-FINDING; any other value stays and shows up as a digest mismatch",
 		},
